@@ -44,6 +44,8 @@ def oracle_trace(ctx, case, trace, followup=False, static=None):
     prev_queue = []
     prev_done = {}
     acc = {}  # minutes accumulated for the running survey of a site
+    booked = {}  # site -> minutes its unfinished survey has on the report (from the reports' minutes, i.e. the
+    #              HISTORY of the survey; "interrupted" = booked > 0 and not complete, never the in-progress flag)
     n_cap = None if kind == "stationary" else case["crews"] * case["_cap_used"]
     for k, rec in enumerate(trace):
         if rec["crash"]:
@@ -125,6 +127,27 @@ def oracle_trace(ctx, case, trace, followup=False, static=None):
             flags = {p["site"] for p in rec["planners"] if p["queued"]}
         if flags != set(after):
             ctx.violate("C07:queued-flag", f"queued flags {sorted(flags)} != sites in the queue {sorted(after)}", inp)
+        # ---- "interrupted" from the history: minutes on the report of a survey that has not completed
+        for op in rec.get("ops") or []:
+            if op[0] == "add":
+                booked.pop(op[2], None)            # a new plan object starts with a fresh report
+            elif op[0] == "redetect" and op[3] == 0:
+                booked.pop(op[1], None)            # dropped together with its progress
+        for i in plan:
+            o = outs[i]
+            if o[1] == "C":
+                booked.pop(i, None)
+            elif o[1] != "?":
+                booked[i] = o[3]
+        for i in list(booked):
+            if i not in after:
+                booked.pop(i)
+        for cls, rate, i in rec["queue"]:
+            interrupted = booked.get(i, 0) > 0
+            if (cls == 1) != interrupted:
+                ctx.violate("C07:priority:interrupted-survey-not-in-class-1",
+                            f"site {i}: {booked.get(i, 0)} minutes already surveyed and not complete "
+                            f"(interrupted={interrupted}), queued in class {cls}", inp)
         # ---- priority: class reflects the state of the survey
         if followup:
             reps = {p[0]: p[1] for p in rec["planners"]}
@@ -148,8 +171,7 @@ def oracle_trace(ctx, case, trace, followup=False, static=None):
         requ = []
         for i in plan:
             if outs[i][1] != "C":
-                r = reps.get(i)
-                cls = 1 if (r is not None and r[0] == 1) else 2
+                cls = 1 if booked.get(i, 0) > 0 else 2   # interrupted (history) -> 1, planned-not-attended -> 2
                 rate = next((e[1] for e in rec["queue"] if e[2] == i), 0)
                 requ.append([cls, rate, i])
         expect = stable_by_class(rec["queue_after_take"] + requ)
@@ -403,6 +425,8 @@ def run(ctx):
                 "runs (follow-up with first flags, re-detections, drops); non-trivial = some taken request was "
                 "not completed the same day; distinct by (kind, class, sizes, times, outcome/class patterns)")
     core.lean_stage(ctx, MODULE, FILE, drivers=["drv_sched"])
+    from harness.props import _tie
+    _tie.crew_tie(ctx)  # layer 3: Method.survey_site, translated from the current source, is Crew.surveyStep/applyStep
     rng = ctx.rng
     cases = list(exhaustive_cases())
     ctx.extra["exhaustive_core_size"] = len(cases)
